@@ -113,6 +113,11 @@ func Show(_ *log.Logger, output io.Writer, bucketURL string, key string, showHea
 	} else {
 		// write the tile to stdout
 
+		if z < 0 || z > 31 || x < 0 || y < 0 || x >= 1<<uint(z) || y >= 1<<uint(z) {
+			// ZxyToID would drop the bits that do not fit and address another tile
+			return fmt.Errorf("%d/%d/%d is not a tile coordinate", z, x, y)
+		}
+
 		tileID := ZxyToID(uint8(z), uint32(x), uint32(y))
 
 		dirOffset := header.RootOffset
